@@ -268,6 +268,13 @@ Section Fn.
     && negb (existsb (Nat.eqb (if_param F)) (ib_phis b ++ ib_defs b)).
   Definition wf_fn : bool := forallb wf_blk (if_blocks F).
 
+  (* shape of the control-flow graph: the entry block has no predecessor and no block has the same predecessor twice
+     (the SSA builder replaces an If with two equal successors by a Jump) *)
+  Fixpoint nodupb (l : list nat) : bool :=
+    match l with [] => true | x :: r => negb (existsb (Nat.eqb x) r) && nodupb r end.
+  Definition wf_cfg : bool :=
+    (match ib_preds (block 0) with [] => true | _ => false end) && forallb (fun b => nodupb (ib_preds b)) (if_blocks F).
+
   Definition covered (s : ist) (b : nat) (t : table) : bool :=
     match set_of s b with [] => true | l => existsb (table_eqb t) l end.
   Definition stable_edge (s : ist) (p b idx : nat) : bool :=
@@ -284,9 +291,24 @@ Section Fn.
         forallb_idx (fun idx q => if Nat.eqb q p then stable_edge s p b idx else true) 0 (ib_preds (block b)))
         (ib_succs (block p))) (i_seen s).
 
+  (* wrapper values (ChangeInterface, MakeInterface, Slice, SliceToArrayPointer, append) whose operand is computed in the
+     same block or is never computed by an instruction (the parameter, a constant): value and operand are then in step
+     in every state of an execution *)
+  Definition operand_of (k : ivkind) : option nat :=
+    match k with
+    | IVChg x | IVMk x | IVSlice x | IVS2AP x _ | IVAppend1 x | IVAppendN x false => Some x
+    | _ => None
+    end.
+  Definition all_defs : list nat := flat_map (fun b => ib_phis b ++ ib_defs b) (if_blocks F).
+  Definition semiplain : bool :=
+    forallb (fun b => forallb (fun v => match operand_of (kind_of v) with
+                                        | None => true
+                                        | Some x => existsb (Nat.eqb x) (ib_phis b ++ ib_defs b) || negb (existsb (Nat.eqb x) all_defs)
+                                        end) (ib_phis b ++ ib_defs b)) (if_blocks F).
+
   (* inferContracts with the validation: true only when the final state passed `stable` *)
   Definition infer_checked (fuel : nat) : bool :=
-    plain && wf_fn &&
+    wf_fn &&
     (if derive [] then true
      else match loop fuel {| i_sets := []; i_seen := [] |} [0] with
           | IDone s => stable s && derive (i_sets s)
